@@ -144,6 +144,18 @@ def generate(repo):
         return re.search(r"if\s+entry\.key\s*==\s*key\s*\{[^}]*return\s+Some\(entry\.value\.clone\(\)\)", body, re.S) is not None
     item("cache_get_checks_key", True, cache_get_checks_key)
 
+    def scan_one_lock():
+        ms = strip_comments(read(repo, "tensor_store/src/metadata_slab.rs"))
+        _, body = find_fn(ms, "scan", after=r"impl\s+MetadataSlab\b")
+        # non-empty prefix: keys AND values are copied while the one shard guard is held
+        g = re.search(r"let\s+shard\s*=\s*self\.shards\[[^\]]+\]\.read\(\)\s*;", body)
+        if not g:
+            return False
+        rest = body[g.end():]
+        copies = re.findall(r"shard\s*\.range\([^)]*\)\s*\.map\(\|\(k,\s*v\)\|\s*\(k\.clone\(\),\s*v\.clone\(\)\)\)\s*\.collect\(\)", rest)
+        return len(copies) >= 1 and ".read()" not in rest
+    item("scan_one_lock", True, scan_one_lock)
+
     def atomic():
         _, b1 = find_fn(src, "put_durable", after=r"impl\s+SlabRouter\b")
         _, b2 = find_fn(src, "delete_durable", after=r"impl\s+SlabRouter\b")
@@ -167,6 +179,8 @@ def generate(repo):
     text += "Definition gen_scan_steps : list N := [%s].\n" % "; ".join(str(x) for x in out["scan_steps"])
     text += "(* every embedding-class arm of put/get/delete/exists starts by taking the key's lock stripe *)\n"
     text += "Definition gen_emb_locked : bool := %s.\n" % ("true" if out["emb_locked"] else "false")
+    text += "(* MetadataSlab::scan (non-empty prefix) copies keys and values under ONE acquisition of the shard lock *)\n"
+    text += "Definition gen_scan_one_lock : bool := %s.\n" % ("true" if out["scan_one_lock"] else "false")
     text += "(* CacheRing::get compares the slot entry's key before returning its value *)\n"
     text += "Definition gen_cache_get_checks_key : bool := %s.\n" % ("true" if out["cache_get_checks_key"] else "false")
     text += "(* put_durable / delete_durable: the in-memory apply runs inside the WAL guard's scope *)\n"
